@@ -16,7 +16,11 @@ func attackBase(prop string, seed uint64, transport string, lightFaults bool) *s
 	s.VirtualCapS = 1500
 	if len(s.Server.Users) < 2 {
 		s.Server.Users = append(s.Server.Users, genUsers(r, 1)...)
-		s.Server.Users[len(s.Server.Users)-1].Name += "-b"
+		u := &s.Server.Users[len(s.Server.Users)-1]
+		if len(u.Name) > 62 {
+			u.Name = u.Name[:62]
+		}
+		u.Name += "-b"
 	}
 	if transport == "udp" {
 		if lightFaults {
